@@ -109,6 +109,7 @@ type lockset struct {
 type pubInfo struct {
 	container string // "global:partitionsCache", "compress/zstd.Codec.encoderPool", "chan:<expr>"
 	anyUse    bool   // Pool.Put: the object is no longer ours, any later use counts; otherwise only writes
+	longLived bool   // the name is a field of a TRACKED struct (an object that lives across calls): retaining it matters
 	direct    bool   // the name IS the address of the tracked field `container` (v := &x.f): uses are accesses of the field itself
 }
 
@@ -230,7 +231,8 @@ type accExtractor struct {
 	trackedNames  map[string]bool
 	confinedCache map[string]map[string]bool
 	closures      map[token.Pos]*closureInfo
-	lockVars      map[types.Object]string // local *sync.Mutex variables → the mutex they point to
+	lockVars      map[types.Object]string        // local *sync.Mutex variables → the mutex they point to
+	putsParam     map[*types.Func]map[int]string // function → parameter index → pool it hands the argument to
 }
 
 func (x *accExtractor) typeDisplay(tn *types.TypeName) string {
@@ -291,7 +293,7 @@ func isMutexType(t types.Type) (rw bool, ok bool) {
 func extractAccesses(repo, root string) error {
 	x := &accExtractor{repo: repo, fset: token.NewFileSet(), tracked: map[*types.TypeName]string{}, atomicTy: map[string]bool{},
 		funcs: map[*types.Func]*funcNode{}, usedAnn: map[string]bool{}, nclosure: map[string]int{},
-		methodsNamed: map[string][]*funcNode{}, aliases: map[string]map[string]bool{}, ourPkgs: map[*types.Package]*pkgInfo{}, trackedNames: map[string]bool{}, closures: map[token.Pos]*closureInfo{}, lockVars: map[types.Object]string{}}
+		methodsNamed: map[string][]*funcNode{}, aliases: map[string]map[string]bool{}, ourPkgs: map[*types.Package]*pkgInfo{}, trackedNames: map[string]bool{}, closures: map[token.Pos]*closureInfo{}, lockVars: map[types.Object]string{}, putsParam: map[*types.Func]map[int]string{}}
 	ab, err := os.ReadFile(filepath.Join(root, "go", "extract", "accesses", "access_annotations.json"))
 	if err != nil {
 		return err
@@ -369,6 +371,7 @@ func extractAccesses(repo, root string) error {
 	}
 	x.aliasPrepass()
 	x.lockVarPrepass()
+	x.poolPutPrepass()
 	// walk every function body
 	for _, p := range x.pkgs {
 		for _, f := range p.files {
@@ -1346,6 +1349,14 @@ func (w *walker) call(c *ast.CallExpr, ls *lockset, kind string) {
 			w.publish(c.Args[0], w.containerName(recv), false, ls)
 		}
 	}
+	// a package-local helper that hands its parameter to a sync.Pool (releaseBuffer(b)): the call publishes the argument
+	if kind == "" && callee != nil {
+		for i, pool := range w.x.putsParam[callee] {
+			if i < len(c.Args) {
+				w.publish(c.Args[i], pool, true, ls)
+			}
+		}
+	}
 	// interface method call: every declared method of that name whose receiver type implements the
 	// interface may be the callee (class-hierarchy approximation) and gets a call edge with this lockset
 	if fn == nil && callee != nil && recv != nil {
@@ -2266,7 +2277,20 @@ func (w *walker) publish(arg ast.Expr, container string, anyUse bool, ls *lockse
 			return
 		}
 	}
-	ls.pub[k] = pubInfo{container: container, anyUse: anyUse}
+	longLived := false
+	if se, ok := arg.(*ast.SelectorExpr); ok {
+		if sel := w.p.info.Selections[se]; sel != nil && sel.Kind() == types.FieldVal {
+			t := sel.Recv()
+			idx := sel.Index()
+			for _, i := range idx[:len(idx)-1] {
+				if st, ok := derefStruct(t); ok {
+					t = st.Field(i).Type()
+				}
+			}
+			_, longLived = w.trackedStruct(t)
+		}
+	}
+	ls.pub[k] = pubInfo{container: container, anyUse: anyUse, longLived: longLived}
 }
 
 func (w *walker) pubRow(container string, pos token.Pos, ls *lockset) {
@@ -2329,7 +2353,7 @@ func (w *walker) pubUse(e ast.Expr, ls *lockset, mode amode) {
 // the next call (double Put / use after Put across calls)
 func (w *walker) retained(ls *lockset, pos token.Pos) {
 	for k, info := range ls.pub {
-		if info.anyUse && !info.direct && strings.Contains(k, ".") {
+		if info.anyUse && !info.direct && info.longLived && strings.Contains(k, ".") {
 			w.pubRow(info.container, pos, ls)
 		}
 	}
@@ -2534,4 +2558,50 @@ func (w *walker) addrOfTrackedField(e ast.Expr) (string, bool) {
 		return "", false
 	}
 	return owner + "." + sel.Obj().Name(), true
+}
+
+// poolPutPrepass: declared functions that pass one of their parameters straight to `X.Put(p)` of a sync.Pool
+// (outside function literals and deferred calls) — `releaseBuffer(b)`.  One level, no transitive closure.
+func (x *accExtractor) poolPutPrepass() {
+	for obj, fn := range x.funcs {
+		var params []types.Object
+		for _, f := range fn.decl.Type.Params.List {
+			if len(f.Names) == 0 {
+				params = append(params, nil)
+			}
+			for _, n := range f.Names {
+				params = append(params, fn.pkg.info.Defs[n])
+			}
+		}
+		w := &walker{x: x, p: fn.pkg, fn: fn}
+		var visit func(n ast.Node)
+		visit = func(n ast.Node) {
+			ast.Inspect(n, func(m ast.Node) bool {
+				switch m := m.(type) {
+				case *ast.FuncLit, *ast.DeferStmt, *ast.GoStmt:
+					return false
+				case *ast.CallExpr:
+					callee, recv := w.calleeOf(m)
+					if callee == nil || recv == nil || len(m.Args) != 1 || w.calleeName(callee) != "sync.Pool.Put" {
+						return true
+					}
+					id, ok := m.Args[0].(*ast.Ident)
+					if !ok {
+						return true
+					}
+					o := fn.pkg.info.Uses[id]
+					for i, p := range params {
+						if p != nil && p == o {
+							if x.putsParam[obj] == nil {
+								x.putsParam[obj] = map[int]string{}
+							}
+							x.putsParam[obj][i] = w.containerName(recv)
+						}
+					}
+				}
+				return true
+			})
+		}
+		visit(fn.decl.Body)
+	}
 }
